@@ -470,6 +470,13 @@ end
 
 /-! ### random_dna with `previous_dna` (categorical.py:527-551, space.py:212-226) -/
 
+/-- Python `value == c` for a node value and a candidate index: `2.0 == 2` holds. -/
+def valEqIdx (v : Val) (c : Nat) : Bool :=
+  match v with
+  | .int i => i == (c : Int)
+  | .flt n d => n == (c : Int) * (d : Int)
+  | _ => false
+
 /-- The previous DNAs handed to the chosen candidates: `None` where the previous choice differs,
 else `DNA(None, children=choice_dna.children, spec=candidates[choice])` (which binds, hence may
 raise). `none` = an assertion / binding error. -/
@@ -482,7 +489,7 @@ def childPrevs (cands : List (List Point)) (k : Nat) (prev : Option DNA) (vs : L
     if cds.length != k || vs.length != k then none
     else
       (cds.zip vs).mapM fun (cd, c) =>
-        if cd.value != .int (c : Nat) then some none
+        if !valEqIdx cd.value c then some none
         else
           let sub := mk' .none cd.children
           match cands[c]? with
